@@ -133,3 +133,13 @@ def zeros(name, polys, hyps=()):
             tw = [Constraint(EQ, P.sub(q, P.const(1)), name + " [twin: = 1]")]
             break
     return Ob(name, goal, hyps, tw)
+
+
+def sincos_input(enc, name, mult=1):
+    """(sin, cos) polynomials of mult * (angle input `name`), consistent with the encoder's own treatment of that input"""
+    at = enc.atom(("in", name))
+    if at["exact"] is not None:
+        s, c = at["exact"]
+    else:
+        s, c = enc.ring.v(at["S"]), enc.ring.v(at["C"])
+    return enc._multiple(s, c, int(mult * at["L"]))
